@@ -267,7 +267,10 @@ def run(ctx, params):
         ctx.notes.append(f"generator for {fmt} failed: {type(e).__name__}: {e}")
         continue
       kind = "valid"
-      if rng.random() < 0.65:
+      if fmt == "stl" and rng.random() < 0.3:
+        data = soup.stl_soup(rng, data)
+        kind = "soup"
+      elif rng.random() < 0.65:
         data = mutate.mutate_stl(rng, data) if fmt == "stl" else (mutate.mutate_text(rng, data) if rng.random() < 0.85 else mutate.mutate_bytes(rng, data))
         kind = "mutated"
     if len(data) > 4 * MAX_INPUT:
